@@ -122,7 +122,7 @@ def publication_order(ctx, paths, ncreate):
         ctx.obligations += 1
         if bad:
             r, m = ctx.eng.check_sat(q.pc)
-            ctx.violations.append({"check": ctx.name, "kernel": q.kernel, "violated": bad, "inputs": {k: hex(v) for k, v in ctx._inputs(m).items()} if m else {},
+            ctx.report(q, {"check": ctx.name, "kernel": q.kernel, "violated": bad, "inputs": {k: hex(v) for k, v in ctx._inputs(m).items()} if m else {},
                                    "outcome": q.status, "replayed": None})
         else:
             ctx.discharged += 1
